@@ -195,6 +195,7 @@ impl NaRec {
                     RespDatum::ZeroBlock(n) => resp.data(Arbitrary(crate::rec::zero_block(*n))),
                     RespDatum::Composite(parts) => resp.data(crate::rec::CompositeData(&parts[..])),
                     RespDatum::Err(e) => resp.data(e.build()),
+                    RespDatum::Failing(e) => resp.data(crate::rec::FailingData(e.build())),
                     RespDatum::ChrList(items) => resp.data(items.iter().take(8).map(|i| Character(&i[..])).collect::<arrayvec::ArrayVec<_, 8>>()),
                     RespDatum::ManyU8(n) => {
                         for i in 0..*n {
